@@ -236,10 +236,8 @@ class _IdxKind(Kind):
             return None
         P = [[Fraction(c) for c in p] for p in real['mpts']]
         w, band = self.walk(P, Fraction(inp['tol']))
-        if w is not None or model == 'assert':
-            wn = self.norm_model(w)
-            if band and wn == model:
-                return 'tie'
+        if band and self.norm_model(w) == model:
+            return 'tie'        # the exact path passes a test inside the rounding band
         if model == 'assert':
             cls = 'model raises AssertionError, real returns vertices'
         elif r == 'assert':
@@ -545,7 +543,7 @@ class _Engine(object):
 
     def record(self, kind, inp, cls, detail, op, args, model, real):
         sig = '%s|%s' % (kind, cls)
-        d = {'signature': sig, 'what': '%s: %s' % (sig, detail)[:600], 'op': op, 'args': args,
+        d = {'signature': sig, 'what': ('%s: %s' % (sig, detail))[:600], 'op': op, 'args': args,
              'model': model, 'real': real, 'seed': self.ctx.seed, 'kind': kind, 'input': inp}
         old = self.dis.get(sig)
         if old is None or KINDS[kind].size(inp) < KINDS[old['kind']].size(old['input']):
@@ -591,7 +589,7 @@ class _Engine(object):
             self.requests += len(reqs)
             self.count('kind', kind)
             self.count('stream', stream)
-            self.count('size', min(k.size(inp), 64))
+            self.count('size', '%02d' % min(k.size(inp), 64))
             if v == 'tie':
                 self.ties += 1
                 self.count('outcome', 'float tie')
@@ -609,6 +607,8 @@ class _Engine(object):
                                          'real': _jsonable(real)})
                 continue
             self.count('outcome', 'DISAGREE')
+            self.hist.setdefault('disagree_by_stream', {})
+            self.count('disagree_by_stream', '%s @ %s' % (kind, stream))
             self.record(kind, inp, v[0], v[1], reqs[0][0], reqs[0][1], v[2], _jsonable(real))
         # shrink the representative of every signature while there is time
         for sig in sorted(self.dis):
